@@ -66,6 +66,10 @@ func (b *Block) TxsIsNil() bool {
 // Basic validation that doesn't involve state data.
 func (b *Block) ValidateBasic(chainID string, lastBlockHeight int64, lastBlockID BlockID,
 	lastBlockTime time.Time, appHash, receiptsHash []byte) error {
+	// The block may have been decoded from bytes chosen by the proposer (or a fast-sync peer): every part may be missing.
+	if b == nil || b.Header == nil || b.Data == nil || b.LastCommit == nil {
+		return errors.New("Incomplete block: nil Header, Data or LastCommit")
+	}
 	if b.ChainID != chainID {
 		return errors.New(gcmn.Fmt("Wrong Block.Header.ChainID. Expected %v, got %v", chainID, b.ChainID))
 	}
